@@ -8,7 +8,9 @@ import MySensors.Properties.C02
 
 namespace MySensors
 
-/-! ### CRC bound -/
+/-! ### CRC bound (own copy, kept in a namespace: Lemmas/Ota.lean proves the same for C09) -/
+
+namespace Total
 
 theorem crcBit_lt (c : Nat) (h : c < 65536) : crcBit c < 65536 := by
   unfold crcBit
@@ -42,6 +44,8 @@ theorem prepareFw_crc_lt (img : List Nat) (h : ∀ b ∈ img, b < 256) : (prepar
   rcases hb with hb | ⟨_, rfl⟩
   · exact h b hb
   · decide
+
+end Total
 
 /-! ### the invariant -/
 
@@ -217,7 +221,7 @@ theorem doStepRelO (wk : Option Int) : StepRelO wk DO where
     unfold storeFirmware at hl
     have hnew : (0 ≤ (fwt, fwv).1 ∧ (fwt, fwv).1 ≤ 65535 ∧ 0 ≤ (fwt, fwv).2 ∧ (fwt, fwv).2 ≤ 65535) ∧
         (prepareFw img).blocks ≤ 65535 ∧ (prepareFw img).crc < 65536 :=
-      ⟨by simpa using hr, hb, prepareFw_crc_lt img hbytes⟩
+      ⟨by simpa using hr, hb, Total.prepareFw_crc_lt img hbytes⟩
     cases hk : lookup (fwt, fwv) g.ota.firmware with
     | some old =>
       rw [hk] at hl
